@@ -220,7 +220,7 @@ class Program:
         if rng.random() < 0.5:
             opts["need_trough"] = True
         self.world = gen_world(rng, opts)
-        self.gen = Gen(rng, self.world, {"p_comp": 0.5, "dist_dups": True, "no_deprecated_wash": True})
+        self.gen = Gen(rng, self.world, {"p_comp": 0.5, "dist_dups": True, "no_deprecated_wash": True, "no_evo_ops": True})
         r = rng.random()
         self.n = rng.randint(1, 8) if r < 0.6 else rng.randint(8, 20) if r < 0.92 else rng.randint(20, 50)
         if tier == "thorough" and rng.random() < 0.2:
